@@ -117,6 +117,7 @@ def parse_config_file(args_dict):
     # Initiate files dict with defaults.
     files = {'save': False, 'load': False, 'cache': False,
              'survey': 'survey', 'model': 'model', 'output': 'emg3d_out'}
+    from_terminal = []
     for key, value in files.items():
 
         config_or_default = all_files.pop(key, value)
@@ -127,6 +128,8 @@ def parse_config_file(args_dict):
         # If there was no terminal input, get config-file; else, default.
         if fname is None:
             fname = config_or_default
+        else:
+            from_terminal.append(key)
 
         # Next file if it is not provided.
         if not fname:
@@ -145,11 +148,13 @@ def parse_config_file(args_dict):
         # Store in dict.
         files[key] = str(ffile)
 
-    # If cache, it overwrites save/load:
+    # If cache, it overwrites save/load (but a cache from the config file
+    # does not overwrite save/load provided in the terminal).
     cache = files.pop('cache')
     if cache:
-        files['load'] = cache
-        files['save'] = cache
+        for key in ['load', 'save']:
+            if 'cache' in from_terminal or key not in from_terminal:
+                files[key] = cache
 
     # Add log file.
     files['log'] = logfile
